@@ -61,6 +61,9 @@ type Profile struct {
 	Avoid map[string]string
 }
 
+// avoidQuiet tests a switch without counting an avoided draw.
+func (g *gen) avoidQuiet(sw string) bool { return g.p.Avoid != nil && g.p.Avoid[sw] != "" }
+
 func (g *gen) avoid(sw string) bool {
 	if g.p.Avoid != nil && g.p.Avoid[sw] != "" {
 		g.s.Avoided = bump(g.s.Avoided, sw)
@@ -117,6 +120,9 @@ type gen struct {
 	msgDefs   map[string]*Message
 	feature   map[string]string // fq message name -> MarshalJSON-generating feature it carries ("" if none)
 	usedShort map[string]bool   // short type names in use (TS/OpenAPI use short names)
+
+	firstSeg      map[string]bool // "VERB segment" literal first segments in use (schema-wide)
+	allowVarFirst bool            // the schema has a single route: a variable may be the first segment
 }
 
 func (g *gen) bool(label string) bool { return rapid.Bool().Draw(g.t, label) }
@@ -133,7 +139,7 @@ func (g *gen) tagf(format string, a ...any) { g.tag[fmt.Sprintf(format, a...)] =
 // Generate draws one schema. id must be unique within a batch.
 func Generate(t *rapid.T, p *Profile, id string) *Schema {
 	g := &gen{t: t, p: p, tag: map[string]bool{}, enumDefs: map[string]*Enum{}, msgDefs: map[string]*Message{},
-		feature: map[string]string{}, usedShort: map[string]bool{}}
+		feature: map[string]string{}, usedShort: map[string]bool{}, firstSeg: map[string]bool{}}
 	pkgTail := pick(g, []string{"shop.v1", "api", "core.v2", "svc"}, "pkgtail")
 	goPkg := pick(g, []string{"shoppb", "api", "corev2", "svc"}, "gopkg")
 	// unique per id so several schemas link into one binary
@@ -160,7 +166,7 @@ func Generate(t *rapid.T, p *Profile, id string) *Schema {
 	}
 	usedSvc := map[string]bool{}
 	for i := 0; i < ns; i++ {
-		g.newService(main, usedSvc)
+		g.newService(main, usedSvc, ns == 1)
 	}
 	g.splitFiles(main)
 	for k := range g.tag {
@@ -455,12 +461,18 @@ func (g *gen) addOneof(m *Message, fq string, c *fieldCtx, disc, flat bool) *One
 		var f *Field
 		if flat || (disc && g.bool("variantmsg")) {
 			// message variant
-			ref := g.variantMessage(flat)
+			ref := g.variantMessage(flat || g.avoidQuiet("child_encoding_json"))
 			f = &Field{Name: g.fieldName(c.used, true), Number: g.nextNum(c), Kind: KMessage, TypeRef: ref, Card: Singular}
 		} else {
 			f = g.plainField(c)
 			f.Card = Singular
 			f.MapKey = ""
+			if disc && f.Kind == KTimestamp && g.avoid("oneof_disc_timestamp_variant") {
+				f.Kind = KString
+			}
+			if disc && f.Kind == KMessage && g.avoid("child_encoding_json") {
+				f.Kind, f.TypeRef = KString, ""
+			}
 		}
 		f.Oneof = oname
 		if disc && g.oneIn(2, "oneofvalue") {
@@ -655,7 +667,7 @@ func (g *gen) annotate(m *Message, fq string, c *fieldCtx) {
 		}
 		g.tagf("bytes:%d:%s", f.Ann.BytesEncoding, card)
 	}
-	if p.feat("enum_number") && p.Enums && want("enum_number") {
+	if p.feat("enum_number") && p.Enums && want("enum_number") && !g.avoid("enum_number") {
 		// needs an enum without custom values
 		var plain []string
 		for _, e := range g.enums {
@@ -731,7 +743,7 @@ func (g *gen) emptyCapableMessage() string {
 
 // ---- services ---------------------------------------------------------------------
 
-func (g *gen) newService(f *File, usedSvc map[string]bool) {
+func (g *gen) newService(f *File, usedSvc map[string]bool, only bool) {
 	name := pick(g, svcWords, "svcname") + "Service"
 	for usedSvc[name] {
 		name = "X" + name
@@ -742,7 +754,10 @@ func (g *gen) newService(f *File, usedSvc map[string]bool) {
 	if p.BasePaths && g.oneIn(2, "basepath") {
 		choices := []string{"/api/v1", "/" + strings.ToLower(name[:3]), "/a/b/c"}
 		if p.OddBasePaths {
-			choices = append(choices, "api", "/api/", "/", "v1/x/")
+			choices = append(choices, "/api/", "/")
+			if !g.avoid("base_path_no_leading_slash") {
+				choices = append(choices, "api", "v1/x/")
+			}
 		}
 		s.BasePath = pick(g, choices, "basepathv")
 		g.tagf("base_path")
@@ -754,6 +769,7 @@ func (g *gen) newService(f *File, usedSvc map[string]bool) {
 	if p.MaxMethods > 1 {
 		nm = g.intn(1, p.MaxMethods, "nmethods")
 	}
+	g.allowVarFirst = only && nm == 1
 	usedM := map[string]bool{}
 	usedRoutes := map[string]bool{}
 	var prevReq, prevResp string
@@ -793,6 +809,10 @@ func (g *gen) staticPath(used map[string]bool, verb string, s *Service) string {
 		for i := 0; i < n; i++ {
 			segs = append(segs, pick(g, pathSegs, "seg"))
 		}
+		for g.firstSeg[verb+" "+segs[0]] {
+			segs[0] = fmt.Sprintf("%s%d", segs[0], len(g.firstSeg))
+		}
+		g.firstSeg[verb+" "+segs[0]] = true
 		if try > 2 {
 			segs = append(segs, fmt.Sprintf("r%d", try))
 		}
@@ -884,8 +904,17 @@ func (g *gen) buildMethod(f *File, s *Service, m *Method, usedRoutes map[string]
 		// template
 		for try := 0; ; try++ {
 			var segs []string
-			if len(pathVars) == 0 || !g.oneIn(4, "varfirst") {
-				segs = append(segs, pick(g, pathSegs, "seg0"))
+			// net/http's ServeMux refuses ambiguous patterns: give every route of the schema a
+			// distinct literal first segment per verb; a variable-first route is only drawn when
+			// it is the first route of its verb in the schema and then blocks further ones
+			varFirst := len(pathVars) > 0 && g.allowVarFirst && g.oneIn(2, "varfirst")
+			if !varFirst {
+				first := pick(g, pathSegs, "seg0")
+				for g.firstSeg[vname+" "+first] {
+					first = fmt.Sprintf("%s%d", first, len(g.firstSeg))
+				}
+				g.firstSeg[vname+" "+first] = true
+				segs = append(segs, first)
 			}
 			for i, v := range pathVars {
 				segs = append(segs, "{"+v.Name+"}")
@@ -933,6 +962,9 @@ func (g *gen) buildMethod(f *File, s *Service, m *Method, usedRoutes map[string]
 			q.Name = pick(g, []string{"q", "page", "limit", "sort_by", "filter.name", "x-y", "Q"}, "qnamev") + fmt.Sprint(i)
 		}
 		q.Required = g.oneIn(4, "qreq")
+		if q.Required && bodyVerb && g.avoid("required_query_on_body_verb") {
+			q.Required = false
+		}
 		fl.EnsureAnn().Query = q
 		req.Fields = append(req.Fields, fl)
 		g.tagf("query:%s", k)
@@ -1142,6 +1174,9 @@ func (g *gen) unwrapRoot(m *Message, fq string) bool {
 			f.Kind = g.unwrapScalarKind()
 		}
 		if f.Kind == KMessage && f.MapKey != KString && g.avoid("unwrap_root_map_nonstring_key") {
+			f.MapKey = KString
+		}
+		if f.Kind != KMessage && f.MapKey == KBool && g.avoid("unwrap_scalar_json") {
 			f.MapKey = KString
 		}
 		f.EnsureAnn().Unwrap = true
